@@ -150,6 +150,36 @@ fn inv_walk(n: &XmlNode, bad: &mut Vec<String>, seen: &mut Vec<usize>, depth: us
     }
     seen.push(id);
     ords.push(n.order());
+    // nodeValue is the data / value of the kinds that have one and null for the others; getAttribute is the value of the
+    // attribute node of that name
+    let nv = n.node_value().unwrap_or(Some("\u{0}ERR".to_string()));
+    let want = match n {
+        XmlNode::Text(t) => t.data().ok().map(Some),
+        XmlNode::CData(t) => t.data().ok().map(Some),
+        XmlNode::Comment(t) => t.data().ok().map(Some),
+        XmlNode::PI(p) => Some(Some(ProcessingInstruction::data(p))),
+        XmlNode::Attribute(a) => a.value().ok().map(Some),
+        XmlNode::Element(_) | XmlNode::Document(_) | XmlNode::DocumentType(_) | XmlNode::EntityReference(_) => Some(None),
+        _ => None,
+    };
+    if let Some(w) = want {
+        if w != nv {
+            bad.push(format!("node_value of {}: {:?}, the typed accessor says {:?}", id, nv, w));
+        }
+    }
+    if let XmlNode::Element(el) = n {
+        if let Some(map) = n.attributes() {
+            for i in 0..map.length() {
+                if let Some(a) = map.item(i) {
+                    let nm = a.name();
+                    let first = el.get_attribute_node(&nm).and_then(|x| x.value().ok()).unwrap_or_default();
+                    if el.get_attribute(&nm) != first {
+                        bad.push(format!("get_attribute({}) of {} differs from the value of get_attribute_node", nm, id));
+                    }
+                }
+            }
+        }
+    }
     if let Some(map) = n.attributes() {
         for i in 0..map.length() {
             if let Some(a) = map.item(i) {
